@@ -94,3 +94,20 @@ void h_take(void) {
   __CPROVER_assert(g_items_pushed == 0 && g_wp_pushed == 0, "C06 take: never gives");
   __CPROVER_assert(g_sched_calls == g_live_taken, "C06 take: every live waiter removed from the pending queue is resumed (no lost wake-up)");
 }
+/* ---- close ---- */
+int g_can[3];
+int can_resume_stub(JanetFiber *f) { return g_can[f - g_fibers]; }
+JanetChannel *getchannel_stub(const Janet *argv, int32_t n) { return &g_ch; }
+Janet close_result_stub(JanetChannel *c) { Janet r; r.u64 = 0x9999; return r; }
+void fixarity_stub(int32_t argc, int32_t n) { __CPROVER_assume(argc == n); }
+void h_close(void) {
+  setup(); g_can[0] = nd_int() & 1; g_can[1] = nd_int() & 1; g_can[2] = nd_int() & 1;
+  int closed0 = g_ch.closed; Janet argv[1];
+  cfun_channel_close(1, argv);
+  __CPROVER_assert(g_ch.closed, "C06 close: the channel is closed afterwards");
+  if (!closed0) {
+    __CPROVER_assert(g_rp == 0 && g_wp == 0, "C06 close: both pending queues are drained (every waiter is examined)");
+    REACH("close drains the queues");
+  } else __CPROVER_assert(g_sched_calls == 0 && g_rp == g_rp0 && g_wp == g_wp0, "C06 close: closing twice does nothing");
+  __CPROVER_assert(g_items == g_items0 && g_items_pushed == 0 && g_items_popped == 0, "C06 close: queued values are kept");
+}
